@@ -42,8 +42,9 @@ structure Sched where
   enabled     : Bool
   /-- cron expression or timezone does not parse (only looked at when `enabled`) -/
   parseErr    : Bool
-  /-- sorted match seconds of the expression set in its effective timezone (oracle for Next) -/
-  jmatches     : List Int
+  /-- per cron expression of the set: its sorted match seconds in the effective timezone
+  (oracle for `cronexpr.Expression.Next`); the in-repo `multiExpression` fold combines them -/
+  exprs       : List (List Int)
   notBefore   : Option Int
   notAfter    : Option Int
   lastUpdated : Option Int
@@ -66,7 +67,8 @@ def getNext (nxt : Int → Option Int) (notAfter : Option Int) (fromNs : Int) : 
     | some naf => if n > naf then none else some n
     | none => some n
 
-def JC.nxt (jc : JC) : Int → Option Int := nextInList jc.sched.jmatches
+/-- `NewExpressionFromCronSchedule(...).Next`: the multiExpression over the parsed expressions -/
+def JC.nxt (jc : JC) : Int → Option Int := multiNext (jc.sched.exprs.map nextInList)
 
 /-- `getInitialTimeForScheduling(jobConfig, cfg, now, now)` in nanoseconds. -/
 def initialTime (jc : JC) (cfgDowntime defaultDowntime : Int) (now : Int) : Int :=
